@@ -349,6 +349,43 @@ def r8_structural(run, F):
            "the result of put_symbol must decide the member's name/poison (a discarded Err would accept the literal)")
 
 
+def r9_typer_visit(run, F):
+    """T2 (interprocedural): the typer reaches every expression and reference; helper functions count as traversals when
+    a parameter of theirs is passed on to a traversal (least fixpoint, visit.traverser_closure)."""
+    C = F.lib
+    rel = visit.type_closure(C, {"alpha::common::Expression", "alpha::common::Reference"})
+    TR = "alpha::typer::Analyzable"
+
+    def base(c):
+        return c.endswith("alpha::typer::Analyzable>::analyze") or c == TR + "::analyze"
+    cands = [b for p, b in C.bodies.items() if p.startswith("alpha::typer::") and "{closure" not in p and not b.get("impl_trait")]
+    T = visit.traverser_closure(C, base, cands, rel)
+    run.info("typer helper traversals: %s" % sorted(T))
+    run.require(len(T) >= 8, "typer: helper traversals not found (%d)" % len(T))
+    impls = [b for b in C.bodies.values() if b.get("impl_trait") == TR and "{closure" not in b["npath"]]
+    run.require(len(impls) >= 8, "typer Analyzable impls not found (%d)" % len(impls))
+    exceptions = {
+        "Expression::Deref.reference": ("a Deref that already carries its type was analysed by an earlier typer pass (the typer runs to a fixpoint)", {"deref_type": "Some"}),
+        "Expression::Autocoerce.expression": "Autocoerce nodes are only built by the typer itself, around an expression it has just analysed",
+    }
+    n = 0
+    for b in impls:
+        def rep(key, ok, where, detail, sample):
+            run.ob("R9-TYPER-VISITS", key, ok, where, detail + ": expressions inside it are never typed or checked", sample)
+        n += visit.check_impl(F, C, b, rel, lambda c: base(c) or c in T, rep, exceptions=exceptions)
+    run.require(n >= 30, "too few visit obligations (%d)" % n)
+    # the Autocoerce exception rests on: only typer.rs builds Autocoerce
+    bad = []
+    for b in C.bodies.values():
+        relf = F.rel(b["file"]) if "hir" in b else ""
+        if not (relf in ("src/alpha/parser.rs", "src/alpha/expander.rs", "src/alpha/lexer.rs") or relf.startswith("src/alpha/scoper")):
+            continue  # stages that run before the typer
+        for p, node in hirq.constructs(b["hir"]):
+            if p == "alpha::common::Expression::Autocoerce":
+                bad.append(F.where(b, node))
+    run.ob("R9-TYPER-VISITS", "no Autocoerce before the typer", not bad, "src/alpha", "Expression::Autocoerce constructed by a stage that runs before the typer: %s" % bad[:3])
+
+
 def check(run):
     F = run.facts("B")
     r1_tables(run, F)
@@ -359,9 +396,10 @@ def check(run):
     r6_codes(run, F)
     r7_visit(run, F)
     r8_structural(run, F)
+    r9_typer_visit(run, F)
     if run.tier == "thorough":
         FA = run.facts("A")
         run.key_prefix = "cfgA:"
-        for fn in (r1_tables, r2_wiring, r3_r5_relations, r4_calls, r5_unification, r6_codes, r7_visit, r8_structural):
+        for fn in (r1_tables, r2_wiring, r3_r5_relations, r4_calls, r5_unification, r6_codes, r7_visit, r8_structural, r9_typer_visit):
             fn(run, FA)
         run.key_prefix = ""
